@@ -86,7 +86,8 @@ def gen_scenario(rng, frontend):
         elif k < 0.93:
             events.append({'t': t, 'kind': 'cancel', 'i': rng.randrange(ni)})
         else:
-            events.append({'t': t, 'kind': 'shutdown'})
+            # the application shuts the face down, or the face goes down by itself (connection lost): Face.run() returns
+            events.append({'t': t, 'kind': 'shutdown', 'by': rng.choice(['app', 'face'])})
     for it in ints:
         if it['placeholder'] and rng.random() < 0.8:
             events.append({'t': it['te'] + rng.choice([1, 5, it['L'] - 1]), 'kind': 'dataf', 'i': it['id']})
@@ -434,7 +435,10 @@ def execute(sc):
                 if t is not None and not t.done():
                     t.cancel()
             elif k == 'shutdown':
-                the_app.shutdown()
+                if e.get('by') == 'face':
+                    face.shutdown()          # the transport ends on its own; nobody calls NDNApp.shutdown()
+                else:
+                    the_app.shutdown()
                 shutdown = True
         # let everything run out: all deadlines and validators
         horizon = max([it['te'] + it['L'] for it in sc['ints']] + [e['t'] for e in sc['events']]) + \
@@ -571,9 +575,9 @@ def template_scenarios(rng, fe):
     ok = 'PASS' if fe == 'v2' else True
     bad = 'FAIL' if fe == 'v2' else False
 
-    def I(i, name, te=0, L=100, lat=0, verdict=None, cbp=False, digest=None):
+    def I(i, name, te=0, L=100, lat=0, verdict=None, cbp=False, digest=None, aw=0):
         return {'id': i, 'name': name, 'cbp': cbp, 'L': L, 'te': te, 'lat': lat, 'verdict': ok if verdict is None else verdict,
-                'digest': digest, 'placeholder': False}
+                'digest': digest, 'placeholder': False, 'aw': aw}
 
     def sc(ints, datas, extra):
         evs = [{'t': it['te'], 'kind': 'express', 'i': it['id']} for it in ints] + extra
@@ -599,9 +603,15 @@ def template_scenarios(rng, fe):
     # T5: one Data satisfies nested CanBePrefix Interests and an exact one, but not a sibling
     out.append(('one-data-many-interests', sc([I(0, 'a', L=L, cbp=True), I(1, 'ab', L=L, cbp=True), I(2, 'abc', L=L), I(3, 'ad', L=L), I(4, 'ab', L=L)],
                                               [{'id': 0, 'name': 'abc'}], [{'t': d, 'kind': 'data', 'd': 0}])))
-    # T6: shutdown with pending and validating Interests
+    # T6: shutdown with pending and validating Interests (by the application / the face going down by itself)
     out.append(('shutdown-mixed', sc([I(0, 'ab', L=L * 4, lat=L * 2), I(1, 'ad', L=L * 4), I(2, 'a', L=L * 4, cbp=True)], [{'id': 0, 'name': 'ab'}],
-                                     [{'t': d, 'kind': 'data', 'd': 0}, {'t': d + 5, 'kind': 'shutdown'}])))
+                                     [{'t': d, 'kind': 'data', 'd': 0}, {'t': d + 5, 'kind': 'shutdown', 'by': rng.choice(['app', 'face'])}])))
+    out.append(('face-lost', sc([I(0, 'ab', L=L * 4), I(1, 'ad', L=L * 6), I(2, 'ab', L=L * 5)], [{'id': 0, 'name': 'ab'}], [{'t': d, 'kind': 'shutdown', 'by': 'face'}])))
+    # T10: the returned coroutine is first awaited after the lifetime is over: what arrived in time still counts
+    late = L + rng.choice([1, 5, 60])
+    out.append(('late-await-data', sc([I(0, 'ab', L=L, aw=late), I(1, 'ab', L=L)], [{'id': 0, 'name': 'ab'}], [{'t': d, 'kind': 'data', 'd': 0}])))
+    out.append(('late-await-nothing', sc([I(0, 'ab', L=L, aw=late), I(1, 'abc', L=L * 3)], [{'id': 0, 'name': 'abc'}], [{'t': L + late + 5, 'kind': 'data', 'd': 0}])))
+    out.append(('late-await-nack', sc([I(0, 'ad', L=L, aw=late), I(1, 'ab', L=L)], [{'id': 0, 'name': 'ab'}], [{'t': d, 'kind': 'nack', 'i': 0, 'reason': 100}])))
     # T7: Nack for a name that is only a prefix of / longer than a pending name
     out.append(('nack-for-prefix-of-pending', sc([I(0, 'abc', L=L), I(1, 'a', L=L * 2)], [{'id': 0, 'name': 'abc'}],
                                                  [{'t': d, 'kind': 'nack', 'i': 1, 'reason': 100}, {'t': d + 1, 'kind': 'data', 'd': 0}])))
@@ -654,7 +664,7 @@ def run(ctx):
             R, S = execute(sc)
             judge(ctx, sc, R, S)
         ctx.extra['exhaustive_subspace'] = f'all ordered selections of 1..3 events from 5 (Data, 2 Nacks, 2 cancels) over 2 Interests x 2 name pairs x CanBePrefix x 2 front-ends: {len(space)} scenarios'
-    for lab in ('cancel-then-nack', 'cancel-then-data', 'reexpress-while-validating', 'tie-data-at-deadline', 'one-data-many-interests',
+    for lab in ('face-lost', 'late-await-data', 'late-await-nothing', 'late-await-nack', 'cancel-then-nack', 'cancel-then-data', 'reexpress-while-validating', 'tie-data-at-deadline', 'one-data-many-interests',
                 'shutdown-mixed', 'nack-for-prefix-of-pending', 'verdicts-differ', 'implicit-digest'):
         ctx.need_class('template:' + lab)
     for k in ('outcome-data', 'outcome-timeout', 'outcome-nack', 'outcome-cancel', 'outcome-valfail', 'validator-calls', 'awaited-later-than-expressed'):
